@@ -43,6 +43,7 @@ type c16Cfg struct {
 	Closed  bool   `json:"closed_loop"`
 	CloseAt int64  `json:"close_at_us"` // 0: only at the end
 	LossPm  int    `json:"path_loss_pm"`
+	CbUs    int64  `json:"callback_us"` // how long the application's change callback takes (0: it only yields)
 }
 
 type c16Op struct {
@@ -100,6 +101,7 @@ func (c16) Gen(seed int64, tier string, avoid []string) *Plan {
 	cfg.BaseUs = pick(r, int64(0), 0, 3_600_000_000, 290*3_600_000_000)
 	cfg.Closed = chance(r, 600)
 	cfg.LossPm = pick(r, 0, 0, 10, 100, 500)
+	cfg.CbUs = int64(pick(r, 0, 0, 50, 3000))
 	n := pick(r, 20, 60, 150)
 	if tier == "thorough" {
 		n = pick(r, 60, 200, 600)
@@ -184,7 +186,8 @@ type c16State struct {
 	e        *Env
 	cfg      c16Cfg
 	pub      []c16Pub // what the pacer was told, in order (spy pacers)
-	cbs      []c16Pub // what the change callback was given, in the order the calls ran
+	cbs      []c16Pub // what the change callback was given, in the order the calls began
+	cbDone   []c16Pub // ... in the order the calls completed
 	closedAt int      // step at which Close returned (0: not yet)
 	closing  bool
 }
@@ -251,6 +254,13 @@ func (c16) Run(e *Env) {
 		// an application's callback naturally asks the estimator
 		st.bound("GetTargetBitrate() (inside the change callback)", bwe.GetTargetBitrate())
 		bwe.GetStats()
+		// an application's callback is not atomic: it takes time and may be descheduled
+		if cfg.CbUs > 0 {
+			simrt.Sleep(us(cfg.CbUs))
+		} else {
+			simrt.Yield("callback-body")
+		}
+		st.cbDone = append(st.cbDone, c16Pub{v, e.S.Step()})
 	})
 	// ---- the path
 	var wire []*c16Pkt
@@ -342,6 +352,11 @@ func (c16) Run(e *Env) {
 		e.Fault("close")
 	}
 	feed := func(raw []byte, what string) {
+		if _, perr := rtcp.Unmarshal(raw); perr != nil {
+			// (a transport-cc feedback without any received packet; pion/rtcp cannot parse it, nothing reaches the estimator)
+			e.Probe("feedback_unparseable_by_pion_rtcp")
+			return
+		}
 		begun := e.S.Step()
 		orig := append([]byte{}, raw...)
 		defer func() {
@@ -353,7 +368,7 @@ func (c16) Run(e *Env) {
 		var err error
 		if rtcpR != nil {
 			rtcpIn = raw
-			_, _, err = rtcpR.Read(make([]byte, 1500), interceptor.Attributes{})
+			_, _, err = rtcpR.Read(make([]byte, max(1500, len(raw))), interceptor.Attributes{})
 		} else {
 			var pkts []rtcp.Packet
 			if pkts, err = rtcp.Unmarshal(raw); err != nil {
@@ -480,6 +495,9 @@ func (c16) Run(e *Env) {
 	e.Wait(gs...)
 	// ---- quiescence: no feedback in flight, every callback goroutine has run
 	simrt.Sleep(2 * time.Second)
+	for i := 0; i < 120 && (len(st.cbDone) != len(st.cbs) || len(st.cbDone) < len(st.pub)); i++ {
+		simrt.Sleep(time.Second) // slow callbacks are delivered one after the other
+	}
 	final := sample("after quiescence")
 	if cfg.Pacer != "default" {
 		want := cfg.Init
@@ -516,6 +534,11 @@ func (c16) Run(e *Env) {
 		e.Probe("target_changed")
 		if lastCb := st.cbs[len(st.cbs)-1].v; lastCb != final {
 			e.Violatef("oracle", "c16:last-callback-stale", "after quiescence the most recent change callback carried %d but GetTargetBitrate() returns %d (callbacks ran in the order %v)", lastCb, final, c16Vals(st.cbs))
+		}
+		if n := len(st.cbDone); n != len(st.cbs) {
+			e.Violatef("oracle", "c16:callback-unfinished", "%d change callbacks began, %d completed", len(st.cbs), n)
+		} else if lastDone := st.cbDone[n-1].v; lastDone != final {
+			e.Violatef("oracle", "c16:last-callback-stale", "after quiescence the change callback that completed last carried %d but GetTargetBitrate() returns %d (callbacks overlapped; they completed in the order %v)", lastDone, final, c16Vals(st.cbDone))
 		}
 		lo, hi := st.cbs[0].v, st.cbs[0].v
 		for _, c := range st.cbs {
